@@ -573,8 +573,82 @@ class DistBatchH(_BeamBase):
         return dict(outputs=lp.reshape(-1).tolist(), failures=failures)
 
 
+class WalkAdvanceH(Harness):
+    """random_walk_advance called directly with caller-supplied prefixes of ragged lengths: the drawn token lands at position y_prev_lens[n] of
+    element n, earlier positions are untouched, the buffer grows exactly when some prefix fills it, and the score adds the drawn token's
+    log-probability.  cfg: N, V, S, lens (bool)"""
+    functions = ["pydrobert.torch._decoding.random_walk_advance"]
+
+    def _call(self, lpt, lpp, y_prev, lens):
+        import pydrobert.torch.functional as F
+        return F.random_walk_advance(lpt, lpp, y_prev, lens)
+
+    def _judge(self, c, y_next, lp_next, cells, eq, ne):
+        N, V, S = c["N"], c["V"], c["S"]
+        lpt, lpp, yp, lv, ch = cells
+        viol = []
+        mx = lv[0]
+        for x in lv[1:]:
+            mx = s_ite(s_cmp("gt", x, mx), x, mx)
+        grow = s_cmp("ge", mx, S) if c["lens"] else True
+        rows = y_next.shape[0]
+        viol.append((f"returned buffer has {rows} rows", s_not(s_ite(grow, rows == S + 1, rows == S)) if is_sym(grow) else rows != (S + 1 if grow else S)))
+        yn = y_next.nested() if hasattr(y_next, "nested") else y_next.tolist()
+        ln = lp_next.vals() if hasattr(lp_next, "vals") else lp_next.tolist()
+        for n in range(N):
+            for s_ in range(rows):
+                at = s_cmp("eq", lv[n], s_) if c["lens"] else (s_ == S)
+                before = s_cmp("lt", s_, lv[n]) if c["lens"] else (s_ < S)
+                viol.append((f"element {n}: the drawn token is not at position y_prev_lens[{n}]", s_and(at, ne(yn[s_][n], ch[n]))))
+                if s_ < S:
+                    viol.append((f"element {n}: position {s_} of the prefix was overwritten", s_and(before, ne(yn[s_][n], yp[s_][n]))))
+            tok_lp = lpt[n][V - 1]
+            for v in range(V - 2, -1, -1):
+                tok_lp = s_ite(s_cmp("eq", ch[n], v), lpt[n][v], tok_lp)
+            viol.append((f"element {n}: score is not the previous score plus the drawn token's log-probability", s_not(eq(ln[n], s_add(lpp[n], tok_lp)))))
+        return viol
+
+    def symbolic(self, eng):
+        c = self.cfg
+        N, V, S = c["N"], c["V"], c["S"]
+        lpt = [[eng.grid(f"lt{n}_{v}", -8, 0, 4) for v in range(V)] for n in range(N)]
+        lpp = [eng.grid(f"lp{n}", -8, 0, 4) for n in range(N)]
+        yp = [[eng.int(f"y{s_}_{n}", 0, V - 1) for n in range(N)] for s_ in range(S)]
+        lv = [eng.int(f"len{n}", 0, S) for n in range(N)] if c["lens"] else [S] * N
+        ch = [eng.int(f"ch{n}", 0, V - 1) for n in range(N)]
+
+        def multinomial_stub(e, func, ov, probs, num, replacement=False, generator=None):
+            return e.tensor(list(ch), (N, 1), torch.int64)   # every token has positive probability here (finite log-probabilities)
+
+        eng.stubs["multinomial"] = multinomial_stub
+        y_next, lp_next = self._call(eng.tensor([x for r in lpt for x in r], (N, V), torch.float32), eng.tensor(lpp, (N,), torch.float32),
+                                     eng.tensor([x for r in yp for x in r], (S, N), torch.int64), eng.tensor(lv, (N,), torch.int64) if c["lens"] else None)
+        if tuple(y_next.shape[1:]) != (N,) or tuple(lp_next.shape) != (N,):
+            return dict(outputs=[], viol=[(f"shapes {tuple(y_next.shape)} {tuple(lp_next.shape)}", True)])
+        viol = self._judge(c, y_next, lp_next, (lpt, lpp, yp, lv, ch), lambda a, b: s_eq_total(a, b), lambda a, b: s_cmp("ne", a, b))
+        return dict(outputs=list(lp_next.vals()), viol=viol)
+
+    def concrete(self, vals):
+        c = self.cfg
+        N, V, S = c["N"], c["V"], c["S"]
+        lpt = [[vals[f"lt{n}_{v}"] / 4 for v in range(V)] for n in range(N)]
+        lpp = [vals[f"lp{n}"] / 4 for n in range(N)]
+        yp = [[vals[f"y{s_}_{n}"] for n in range(N)] for s_ in range(S)]
+        lv = [vals[f"len{n}"] for n in range(N)] if c["lens"] else [S] * N
+        ch = [vals[f"ch{n}"] for n in range(N)]
+        orig = torch.multinomial
+        torch.multinomial = lambda probs, num, replacement=False, generator=None: torch.tensor([[x] for x in ch])
+        try:
+            y_next, lp_next = self._call(torch.tensor(lpt, dtype=torch.float32), torch.tensor(lpp, dtype=torch.float32), torch.tensor(yp, dtype=torch.long).reshape(S, N),
+                                         torch.tensor(lv) if c["lens"] else None)
+        finally:
+            torch.multinomial = orig
+        viol = self._judge(c, y_next, lp_next, (lpt, lpp, yp, lv, ch), lambda a, b: abs(a - b) < 1e-5, lambda a, b: a != b)
+        return dict(outputs=lp_next.tolist(), failures=[l for l, cnd in viol if (cnd is True) or (cnd is not False and bool(cnd))])
+
+
 META = dict(
-    functions=sorted(set(SeqLogProbsH.functions + GreedyCtcH.functions + RandomWalkH.functions + DistWrapperH.functions)),
+    functions=sorted(set(SeqLogProbsH.functions + GreedyCtcH.functions + RandomWalkH.functions + DistWrapperH.functions + WalkAdvanceH.functions)),
     files=["src/pydrobert/torch/_decoding.py", "src/pydrobert/torch/_string.py"],
     explanation=(
         "sequence_log_probs (padded and packed input, both sequence dims) runs on symbolic logits and symbolic tokens including out-of-vocabulary values; "
@@ -617,4 +691,6 @@ def tasks(tier):
         ts.append(task(PROP, M_, "DistWrapperH", V=V, eos=eos, max_iters=T, M=M))
     for V, eos, T, M, N, cache in ((2, 1, 2, 2, 2, False), (2, None, 2, 2, 2, True), (2, 0, 2, 2, 2, True)) if q else [(2, e, T, 2, N, ca) for e in (None, 0, 1) for T in (1, 2, 3) for N in (2, 3) for ca in (False, True) if not (N == 3 and T == 3)]:
         ts.append(task(PROP, M_, "DistBatchH", V=V, eos=eos, max_iters=T, M=M, N=N, cache=cache))
+    for N, V, S, lens in ((2, 2, 2, True), (2, 2, 1, False)) if q else ((2, 2, 2, True), (3, 2, 2, True), (2, 3, 3, True), (2, 2, 1, False), (2, 2, 0, True)):
+        ts.append(task(PROP, M_, "WalkAdvanceH", N=N, V=V, S=S, lens=lens, nvalidate=1))
     return ts
